@@ -402,8 +402,10 @@ func (g *gen) writeStatementIOManip(b *buffer, n *a.IOManip, depth uint32) error
 				prefix, name)
 			b.printf("size_t wi%d = %s%s->meta.wi;\n",
 				ioBindNum, prefix, name)
-			b.printf("%s%s->data.ptr += wi%d;\n",
-				prefix, name, ioBindNum)
+			// The "if" avoids undefined behavior (arithmetic on a NULL
+			// pointer) for an empty buffer: wuffs_base__empty_io_buffer().
+			b.printf("if (%s%s->data.ptr) {\n%s%s->data.ptr += wi%d;\n}\n",
+				prefix, name, prefix, name, ioBindNum)
 			b.printf("%s%s->data.len -= wi%d;\n",
 				prefix, name, ioBindNum)
 			b.printf("%s%s->meta.ri = 0;\n",
